@@ -9,6 +9,7 @@
    channel; file layer / rotation / compaction = identity on the record list: properties C08 and C16). *)
 From Coq Require Import String.
 From Slock Require Import Engine.Types Engine.Queues Engine.Timers Engine.Engine Engine.Engine2.
+From Slock Require Export Restart.FixFlags.
 Open Scope N_scope.
 
 (* ------------------------------------------------------------------ the persisted stream of a run *)
@@ -30,9 +31,18 @@ Definition load_skip (r : aofrec) (wall : Z) : bool :=
 Definition elapsed_minutes (e : Z) : Z :=
   let m := (e / 60)%Z in if (e <? 60)%Z || negb (e mod 60 =? 0)%Z then (m + 1)%Z else m.
 
-Definition cmd_expried_time (r : aofrec) (dbnow : Z) : N :=
+(* `fix_ms`: source switch (Restart/FixFlags.v, derived from the text of server/aof.go by checks/C07.py):
+   false = the millisecond unit returns ExpriedTime unchanged (pinned tree); true = proposed_fixes/c07_ms_remaining.diff *)
+Definition cmd_expried_time_fx (fix_ms : bool) (r : aofrec) (dbnow : Z) : N :=
   if has (a_eflag r) EF_UNLIMITED then a_etime r
-  else if has (a_eflag r) EF_MILLISECOND then a_etime r
+  else if has (a_eflag r) EF_MILLISECOND then
+    if fix_ms then
+      let e := (dbnow - a_ctime r)%Z in
+      if (0 <=? e)%Z then
+        let e := if a_start r =? 65535 then e else (e + Z.of_N (a_start r))%Z in
+        if (e * 1000 <? Z.of_N (a_etime r))%Z then a_etime r - Z.to_N (e * 1000) mod 65536 else 0
+      else a_etime r
+    else a_etime r
   else if has (a_eflag r) EF_MINUTE then
     let e := (dbnow - a_ctime r)%Z in
     if (0 <=? e)%Z then
@@ -46,6 +56,8 @@ Definition cmd_expried_time (r : aofrec) (dbnow : Z) : N :=
       if e16 <? a_etime r then a_etime r - e16 else 0
     else a_etime r
   else a_etime r.
+
+Definition cmd_expried_time : aofrec -> Z -> N := cmd_expried_time_fx fix_ms_remaining.
 
 (* ------------------------------------------------------------------ (b) AofChannel.HandleLoad: the command *)
 Definition load_cmd (r : aofrec) (dbnow : Z) : cmd :=
